@@ -160,6 +160,24 @@ def strip_unset_tags(c):
   return c
 
 
+ANNOTATION_TAGS = {'fd': {"'x'": {1}, "'q'": {0, 2}}}      # pairs.fd: Annotated[...] tags
+
+
+def strip_annotation_tags(c):
+  """Canonical form without the tags a callable's own annotations give its parameters."""
+  if isinstance(c, list):
+    if len(c) == 6 and c[0] == 'cfg':
+      ann = ANNOTATION_TAGS.get(c[3], {})
+      tags = []
+      for k, ts in c[5]:
+        rest = [t for t in ts if t not in ann.get(repr(k), set())]
+        if rest:
+          tags.append([k, rest])
+      return c[:4] + [[[k, strip_annotation_tags(v)] for k, v in c[4]]] + [tags]
+    return [strip_annotation_tags(x) for x in c]
+  return c
+
+
 def compare(real, model):
   if real.get('flat'):
     from harness import flatdiff
@@ -184,6 +202,10 @@ def oracle(case, real):
          'got': real.get('got'), 'want': real.get('want'), 'mode': real['mode']}
     if strip_unset_tags(real['got']) == strip_unset_tags(real['want']):
       f['class'] = 'fiddler-unset-tagged-arg'      # the only difference: tags on value-less arguments of NEW values
+    elif (strip_annotation_tags(strip_unset_tags(real['got'])) == strip_annotation_tags(strip_unset_tags(real['want']))
+          and 'fdl.' in real['code'] and 'pairs.fd' in real['code']):
+      # the only difference: annotation tags of a NEW value whose constructor call re-adds them
+      f['class'] = 'fiddler-annotation-tag-readded'
     return f
   return None
 
